@@ -93,3 +93,24 @@ def filter_to_coq(case, res):
             [case["R"], case["Q"], 0 if case["dgr"] is None else 1, 0 if case["dy"] is None else 1,
              1 if case["lorch"] else 0, 1 if case["omitted"] else 0, case["channel"]],
             out)
+
+
+def force_uncertainties(rng, case, dgr=True, dy=True):
+    """make the two input uncertainties present (non-zero) or absent as requested"""
+    m = case["mat"]
+    x_r, x_q = np.array(case["r"]), np.array(case["q"])
+    if dgr:
+        dg = [rng.logu(1e-3, 0.3) for _ in case["r"]]
+        with np.errstate(all="ignore"):
+            v = np.array(dg) * L.deriv(1, 0, case["R"], np.where(x_r > 0, x_r, 1.0), m) * (x_r > 0 if case["R"] == 1 else 1.0)
+        case["dgr"], case["common"]["dg"] = v.tolist(), dg
+    else:
+        case["dgr"], case["common"]["dg"] = None, None
+    if dy:
+        df = [rng.logu(1e-3, 0.3) for _ in case["q"]]
+        case["dy"], case["common"]["df"] = (np.array(df) * L.deriv(0, 1, case["Q"], x_q, m)).tolist(), df
+    else:
+        case["dy"], case["common"]["df"] = None, None
+    case["desc"]["dgr"] = "pos" if dgr else "none"
+    case["desc"]["dy"] = "pos" if dy else "none"
+    return case
